@@ -255,13 +255,13 @@ def run(ctx):
     quick = ctx.tier == "quick"
     sizes = {"fmt": 70000 if quick else 1500000, "wkt-write": 6000 if quick else 120000, "wkt-write-seq": 2500 if quick else 50000,
              "wkt-read": 4000 if quick else 60000, "wkt-rt": 6000 if quick else 120000,
-             "geojson": 4000 if quick else 80000}
+             "geojson": 4000 if quick else 80000, "wkt-red": 6000 if quick else 100000}
     shards = min(verif.NPROC, 12)
     corr = {}
     found_input = False
     broken = []
     import time as _t
-    for stream in ("fmt", "wkt-write", "wkt-write-seq", "wkt-read", "wkt-rt", "geojson"):
+    for stream in ("fmt", "wkt-write", "wkt-write-seq", "wkt-read", "wkt-rt", "geojson", "wkt-red"):
         log("stream", stream, "t=%.1f" % (_t.time() - ctx.t0))
         r = verif.run_stream(exe, stream, ctx.seed, sizes[stream], ctx.work, shards=shards, driver_exe=DRV)
         ndis = len(r["disagreements"]) + r.get("more_disagreements", 0)
@@ -362,6 +362,18 @@ def run(ctx):
                                    "replay_cmd": "%s replay wkt-rt <file with case line>" % exe, "signature": sig}, signature=sig)
                 else:
                     broken.append((stream, case, exp, got))
+            elif stream == "wkt-red":
+                # the documented dimension dropping of the C++ writer: the answer of the driver IS the documented rule ("a dimension is written
+                # iff some coordinate has a non-NaN value in it"), so a disagreement is a failing input of the property's dimensionality clause
+                key = "red:" + exp + ">" + got
+                if key in seen:
+                    continue
+                seen.add(key)
+                found_input = True
+                sig = {"stream": "wkt-red", "class": "dimension-dropping-differs-from-rule", "impl": exp, "rule": got}
+                ctx.violation("WKTWriter with setRemoveEmptyDimensions(true) writes dimensions %s, the documented rule gives %s" % (exp, got),
+                              {"kind": "failing-input", "stream": stream, "case": case, "impl": exp, "spec": got,
+                               "replay_cmd": "%s replay wkt-red <file with case line>" % exe, "signature": sig}, signature=sig)
             elif stream == "wkt-write-seq":
                 key = "write-seq"
                 if key in seen:
